@@ -50,6 +50,26 @@ def seeded_table():
     return "\n".join(out)
 
 
+def benign_table():
+    d = os.path.join(HERE, "benign")
+    if not os.path.isdir(d):
+        return "(none)"
+    out = ["| property-preserving change | what it changes (agent's notes, abridged) | quick checks silent |", "|---|---|---|"]
+    for name in sorted(os.listdir(d)):
+        mp = os.path.join(d, name, "meta.json")
+        if not os.path.exists(mp):
+            continue
+        meta = json.load(open(mp))
+        note = " ".join(meta.get("notes", "").split())[:300].replace("|", "\\|")
+        ch = meta.get("checks", {})
+        loud = sorted(p for p, v in ch.items() if v.get("exit") != 0)
+        res = ("%d/%d" % (len(ch) - len(loud), len(ch))) if ch else "not run"
+        if loud:
+            res += " (alarm: %s)" % ", ".join(loud)
+        out.append("| `%s` | %s | %s |" % (name, note, res))
+    return "\n".join(out)
+
+
 def revert_table():
     rp = os.path.join(HERE, "mutants", "revert_results.json")
     if not os.path.exists(rp):
@@ -73,7 +93,7 @@ def notes():
 def main():
     p = os.path.join(HERE, "DESIGN.md")
     s = open(p, encoding="utf-8").read()
-    for key, fn in (("fixed-defects", fixed_table), ("mutants", mutant_table), ("seeded", seeded_table), ("notes", notes), ("reverts", revert_table)):
+    for key, fn in (("fixed-defects", fixed_table), ("mutants", mutant_table), ("seeded", seeded_table), ("notes", notes), ("reverts", revert_table), ("benign", benign_table)):
         pat = re.compile(r"(<!-- BEGIN GENERATED: %s -->\n).*?(<!-- END GENERATED: %s -->)" % (key, key), re.S)
         if not pat.search(s):
             print("marker for %s not found" % key)
